@@ -299,6 +299,41 @@ func (c *Conn) loadReq(id uint32) (*Ctx, bool) {
 	return ctx, ok
 }
 
+// failAbove resolves every request on a stream above last, which is what a
+// GOAWAY says the server will never process, with an error that says so.
+func (c *Conn) failAbove(last uint32) {
+	c.reqLck.Lock()
+
+	var ids []uint32
+
+	for id := range c.reqQueued {
+		if id > last {
+			ids = append(ids, id)
+		}
+	}
+
+	c.reqLck.Unlock()
+
+	for _, id := range ids {
+		r, ok := c.loadReq(id)
+		if !ok || !r.acquireFor(c, id) {
+			continue
+		}
+
+		c.finish(r, id, ErrNotProcessed)
+
+		r.release()
+	}
+}
+
+// noReqsLeft reports whether no request is waiting on this connection.
+func (c *Conn) noReqsLeft() bool {
+	c.reqLck.Lock()
+	defer c.reqLck.Unlock()
+
+	return len(c.reqQueued) == 0
+}
+
 // takeAllReqs empties the table and returns what was in it, for resolving
 // everything at once when the connection ends.
 func (c *Conn) takeAllReqs() []*Ctx {
@@ -581,6 +616,11 @@ func (c *Conn) writeOut(fr *FrameHeader) {
 }
 
 var ErrStreamNotReady = errors.New("stream hasn't been created")
+
+// ErrNotProcessed is returned for a request the server has said it did not and
+// will not process: its stream is above the last-stream-id of a GOAWAY, or was
+// refused with RST_STREAM(REFUSED_STREAM). Such a request can be sent again.
+var ErrNotProcessed = errors.New("the server did not process the request")
 
 // ErrNoMoreStreamIDs is returned once a connection has used up the stream
 // identifier space. The connection stays usable for the streams already on it,
@@ -936,7 +976,11 @@ func (c *Conn) dispatch(fr *FrameHeader) bool {
 		return true
 	}
 
-	return c.state == connStateClosed && fr.Stream() == c.closeRef
+	// After a GOAWAY the connection is done once every request the server may
+	// still answer has been answered. Stopping at the first frame on the last
+	// stream, which is what this did, cut that response off after its HEADERS
+	// and failed every lower stream still waiting.
+	return c.state == connStateClosed && c.noReqsLeft()
 }
 
 func (c *Conn) writeRequest(ctx *Ctx) error {
@@ -1437,6 +1481,11 @@ loop:
 			// connection, so the client must move to a fresh one.
 			atomic.StoreUint32(&c.goAway, 1)
 
+			// The server will not process anything above last-stream-id:
+			// those requests fail now, not when the connection finally goes,
+			// and they are safe to send again.
+			c.failAbove(ga.stream)
+
 			if ga.stream == 0 {
 				_ = c.c.Close()
 				err = ga
@@ -1533,8 +1582,13 @@ func (c *Conn) readStream(fr *FrameHeader, r *Ctx) (err error) {
 	case FrameResetStream:
 		// The server gave up on the stream. Without this the request would sit
 		// there until MaxResponseTime, or forever if that check is disabled.
-		err = NewResetStreamError(
-			fr.Body().(*RstStream).Code(), "stream reset by the server")
+		if fr.Body().(*RstStream).Code() == RefusedStreamError {
+			// RFC 7540 8.1.4: guaranteed not to have been processed.
+			err = ErrNotProcessed
+		} else {
+			err = NewResetStreamError(
+				fr.Body().(*RstStream).Code(), "stream reset by the server")
+		}
 	case FrameData:
 		c.currentWindow -= int32(fr.Len())
 		currentWin := c.currentWindow
